@@ -110,7 +110,7 @@ Fixpoint set_assoc {V} (k : N) (v : V) (l : list (N * V)) : list (N * V) :=
 Fixpoint remove_assoc {V} (k : N) (l : list (N * V)) : list (N * V) :=
   match l with
   | [] => []
-  | (k', v') :: l' => if N.eqb k k' then l' else (k', v') :: remove_assoc k l'
+  | (k', v') :: l' => if N.eqb k k' then remove_assoc k l' else (k', v') :: remove_assoc k l'
   end.
 Definition or_insert {V} (k : N) (v : V) (l : list (N * V)) : list (N * V) :=
   match lookup k l with Some _ => l | None => l ++ [(k, v)] end.
@@ -299,29 +299,35 @@ Fixpoint visit_deps (W : world) (o : bopts) (st : bstate) (ds : list (dep * bool
   end.
 
 (* visit_module *)
+Definition follow_deps (o : bopts) (wm : wmod) : bool :=
+  match bo_kind o with
+  | KTypesOnly => match wm_tdep wm with None => true | Some _ => false end
+  | _ => true
+  end.
+
+Definition load_types_dep (W : world) (o : bopts) (st : bstate) (tdep : option typesdep) : bstate :=
+  if include_types (bo_kind o) then
+    match tdep with
+    | Some td => match td_res td with
+                 | ROk t range => load W o st t (Some range) false false (mem t (st_resolved_roots st)) 0 0
+                 | _ => st end
+    | None => st
+    end
+  else st.
+
 Definition visit_module (W : world) (o : bopts) (st : bstate) (final : spec) (wm : wmod) : bstate * module :=
-  let media := match wm_media wm with MUnknown => MJavaScript | m => m end in
   match wm_kind wm with
   | MkWasm =>
-      let '(st1, deps') := visit_deps W o st (wm_deps wm) in
-      (st1, {| m_kind := MkWasm; m_spec := final; m_media := MWasm; m_deps := deps'; m_types_dep := None;
-               m_fc_deps := None; m_dts := true |})
+      let r := visit_deps W o st (wm_deps wm) in
+      (fst r, {| m_kind := MkWasm; m_spec := final; m_media := MWasm; m_deps := snd r; m_types_dep := None;
+                 m_fc_deps := None; m_dts := true |})
   | _ =>
-      let follow := match bo_kind o with KTypesOnly => match wm_tdep wm with None => true | Some _ => false end
-                                       | _ => true end in
-      let '(st1, deps') := if follow then visit_deps W o st (wm_deps wm) else (st, []) in
-      let st2 :=
-        if include_types (bo_kind o) then
-          match wm_tdep wm with
-          | Some td => match td_res td with
-                       | ROk t range => load W o st1 t (Some range) false false (mem t (st_resolved_roots st1)) 0 0
-                       | _ => st1 end
-          | None => st1
-          end
-        else st1 in
-      (st2, {| m_kind := MkJs; m_spec := final; m_media := media; m_deps := deps';
-               m_types_dep := if include_types (bo_kind o) then wm_tdep wm else None;
-               m_fc_deps := None; m_dts := false |})
+      let media := match wm_media wm with MUnknown => MJavaScript | m => m end in
+      let r := if follow_deps o wm then visit_deps W o st (wm_deps wm) else (st, []) in
+      (load_types_dep W o (fst r) (wm_tdep wm),
+       {| m_kind := MkJs; m_spec := final; m_media := media; m_deps := snd r;
+          m_types_dep := if include_types (bo_kind o) then wm_tdep wm else None;
+          m_fc_deps := None; m_dts := false |})
   end.
 
 Definition add_resolved_root (st : bstate) (s : spec) : bstate :=
